@@ -179,6 +179,17 @@ where
         .fold(Serde::<A>::default(), |acc, cur| acc.merge(cur))
 }
 
+/// Makes sure that the text of a doc attribute cannot end the JSDoc comment it is put into.
+fn escape_doc(text: String) -> String {
+    let text = text.replace("*/", "*\\/");
+    // the text is always placed directly behind a `*`
+    if text.starts_with('/') {
+        format!(" {text}")
+    } else {
+        text
+    }
+}
+
 /// Return doc comments parsed and formatted as JSDoc.
 pub fn parse_docs(attrs: &[Attribute]) -> Result<String> {
     let doc_attrs = attrs
@@ -189,7 +200,7 @@ pub fn parse_docs(attrs: &[Attribute]) -> Result<String> {
             Expr::Lit(ExprLit {
                 lit: Lit::Str(ref str),
                 ..
-            }) => Ok(str.value()),
+            }) => Ok(escape_doc(str.value())),
             _ => syn_err!(attr.span(); "doc  with non literal expression found"),
         })
         .collect::<Result<Vec<_>>>()?;
